@@ -27,7 +27,7 @@ from exabgp.configuration.static.mpls import route_distinguisher
 __all__ = ['ParseFlowRoute', 'ParseFlowMatch', 'ParseFlowThen', 'ParseFlowScope']
 
 from exabgp.bgp.message import Notify
-from exabgp.bgp.message.update.nlri.flow import Flow
+from exabgp.bgp.message.update.nlri.flow import Flow, flow_family_error
 from exabgp.configuration.flow.parser import flow
 from exabgp.configuration.flow.parser import next_hop
 
@@ -118,6 +118,9 @@ class ParseFlowRoute(Section):
             new_nlri._rules_cache = old_nlri._rules_cache
             new_nlri._packed_stale = True
             route.nlri = new_nlri
+        error = flow_family_error(route.nlri.afi, route.nlri.rules)
+        if error:
+            return self.error.set(f'flow route: {error}')
         try:
             # packs the rules: a flow NLRI is at most 4095 bytes (RFC 8955 4.1). It was only found out when the
             # route was indexed or sent, with a Notify
